@@ -2,7 +2,7 @@
 (RF-NOWRITE), decoders test every Hamming result before the output is written
 (RF-NEG), and (bit provenance, RF-BITS) the VPS/DVB-PDC encoders and decoders
 are bit-exact inverses that touch only their own fields."""
-from .. import ex, flow, neg, nowrite, bits
+from .. import atoms, ex, flow, neg, nowrite, bits
 from ..prog import AnalysisBroken
 
 CLAUSE = ("(1) in the ten public VPS/PDC/8-30 codec functions no path to a `return FALSE` stores through an output "
@@ -19,6 +19,8 @@ CLAUSE = CLAUSE + (" (4) RF-TAB: the Hamming 8/4 decoding table _vbi_hamm8_inv[2
                    "decoded value and a double error is refused); the 24/18 parity/error tables have their declared sizes.")
 CLAUSE = CLAUSE + (" (5) RF-IVL: every subscript of a constant-size array in vps.c, packet-830.c and pdc.c is in bounds under the "
                    "function's guards (month_days[month - 1] behind the unsigned `month - 1 < 12` test, the BCD and CNI tables).")
+CLAUSE = CLAUSE + (" (6) RF-DOM: the VPS and DVB PDC descriptor decoders refuse on framing bytes only (descriptor_tag, "
+                   "descriptor_length), never on the decoded label: every value the encoders accept decodes.")
 NOT_DECIDED = ("BCD/MJD/UTC arithmetic of 8/30 format 1 (numeric), the Hamming 24/18 arithmetic, the TR 101 231 0xDC3 special case (documented exception, its branch "
                "is excluded from the bit-provenance comparison).")
 
@@ -101,6 +103,7 @@ def run(ctx, run):
     from .. import sweep
     sweep.run(ctx, run, [UNIT_VPS, UNIT_830, "src/pdc.c"], {}, 90)
     _bcd_digit_bounds(ctx, run)
+    _total_decoders(ctx, run)
     neg.helper_contract(ctx, run)
 
 def _neg_selftest(ctx, run):
@@ -192,3 +195,46 @@ def _bcd_digit_bounds(ctx, run):
                               "different date)" % (digits, digits, v[1] if v[1] is not None else -1), ex.loc(f, i),
                               witness={"digits": digits, "upper_bound": v[1]})
     run.floor("BCD fields in the 8/30 format 1 decoder", n, 2)
+
+
+def _total_decoders(ctx, run):
+    """RF-DOM: the VPS line and the DVB PDC descriptor have no invalid *values* - every CNI and
+    every 20 bit PIL (service codes, unreal dates and 0 included) is a legal label.  The VPS
+    decoders therefore never refuse, and the descriptor decoder refuses only on the framing bytes
+    (descriptor_tag, descriptor_length): a refusal that depends on the decoded payload makes the
+    decoder partial on the encoder's range."""
+    P = ctx.prog
+    n = 0
+    for name in ("vbi_decode_vps_cni", "vbi_decode_vps_pdc", "vbi_decode_dvb_pdc_descriptor"):
+        f = P.need(name, "src/vps.c")
+        run.touch(f)
+        bname = [p["name"] for p in f.params if p["name"] == "buffer"]
+        if not bname:
+            raise AnalysisBroken("%s: parameter `buffer` not found" % name)
+        for bid, i in flow.all_events(f):
+            e = f.exprs[i]
+            if e["k"] != "ret" or not e.get("c") or ex.const(f, e["c"][0]) != 0:
+                continue
+            n += 1
+            bad = []
+            for a in atoms.atoms_at(f, i):
+                for side in (a.L, a.R):
+                    if side is None or side.node is None:
+                        continue
+                    for j in ex.walk(f, side.node):
+                        x = f.exprs[j]
+                        if x["k"] == "ref" and x.get("dk") == "local":
+                            bad.append(x["name"])
+                        if x["k"] == "idx":
+                            r = ex.root(f, j)
+                            ci = ex.const(f, x["c"][1])
+                            if r is not None and f.exprs[r].get("name") == "buffer" and (ci is None or ci > 1):
+                                bad.append("buffer[%s]" % (ci if ci is not None else "?"))
+            key = "RF-DOM:%s:refuses-framing-only@%d" % (name, f.exprs[i]["line"])
+            if bad:
+                run.violation("RF-DOM", key, "%s() refuses input depending on the decoded payload (%s): every label the encoder "
+                              "accepts must decode - the decoder is no longer the inverse of the encoder for the refused values"
+                              % (name, ", ".join(sorted(set(bad)))), ex.loc(f, i))
+            else:
+                run.holds("RF-DOM", key, "the refusal depends only on descriptor_tag / descriptor_length", ex.loc(f, i))
+    run.floor("refusing exits of the VPS / DVB PDC decoders", n, 1)
